@@ -28,6 +28,7 @@ THEOREMS = [
     "O2P.Gate.cover_sound_universe",
     "O2P.Gate.or_inference_sound",
     "O2P.Gate.or_inference_tree_sound",
+    "O2P.Gate.or_inference_tree_sound_below",
     "O2P.Gate.or_test_spec",
     "O2P.Gate.or_inference_leaves_sound",
     "O2P.Gate.post_flat_or_sound",
